@@ -621,9 +621,16 @@ def expand(prog: 'object') -> list[str]:
         # `t1, t2 = helper(...)` with tuple returns: a helper local returned at the same position by every return is that target
         if target is not None and isinstance(target, ast.Tuple) and all(isinstance(t_, ast.Name) for t_ in target.elts):
             rets = [n for st in body for n in ast.walk(st) if isinstance(n, ast.Return)]
-            if rets and all(isinstance(r_.value, ast.Tuple) and len(r_.value.elts) == len(target.elts) for r_ in rets):
+            from kfv import normalize as _nz2
+
+            def _elts(v_: ast.expr | None) -> list[ast.expr] | None:
+                if isinstance(v_, ast.Tuple):
+                    return list(v_.elts)
+                fl2 = _nz2._nt_fields(v_) if isinstance(v_, ast.Call) else None      # a plain NamedTuple construction unpacks as its fields
+                return list(fl2.values()) if fl2 is not None else None
+            if rets and all(_elts(r_.value) is not None and len(_elts(r_.value)) == len(target.elts) for r_ in rets):
                 for j_, t_ in enumerate(target.elts):
-                    nm = {r_.value.elts[j_].id if isinstance(r_.value.elts[j_], ast.Name) else None for r_ in rets}
+                    nm = {_elts(r_.value)[j_].id if isinstance(_elts(r_.value)[j_], ast.Name) else None for r_ in rets}
                     if len(nm) == 1 and None not in nm:
                         (r,) = nm
                         if r in assigned and r not in b and r not in alias and not any(isinstance(x, ast.Name) and x.id == r for k_, tt_ in enumerate(target.elts) if k_ != j_ for x in [tt_]):
